@@ -52,6 +52,26 @@ def fmt_type(types, tuples, tid, depth=3, stack=()):
     return json.dumps(t)[:40]
 
 
+def has_cycle(types, tuples, tid, seen=None):
+    """does the type contain a recursive back-reference anywhere?"""
+    if seen is None:
+        seen = set()
+    if tid in seen or tid >= len(types):
+        return False
+    seen.add(tid)
+    t = types[tid]
+    if isinstance(t, dict):
+        if "cycle" in t:
+            return True
+        if "tuple" in t:
+            return any(has_cycle(types, tuples, ft, seen) for _l, ft in tuples[t["tuple"]][1])
+        if "union" in t:
+            return any(has_cycle(types, tuples, v, seen) for v in t["union"])
+        if "partial" in t:
+            return any(has_cycle(types, tuples, ft, seen) for _n, ft in t["partial"].get("fields") or [])
+    return False
+
+
 class Decider:
     """One solver per program table; queries by push/pop."""
 
